@@ -53,3 +53,12 @@ add("C14", OTHER, "SSA symbolic execution with effects log: symbolic contents an
 add("C15", OTHER, "group-mode symbolic execution with one input position set to the Go zero value; the limb-level guard checked separately in bit-vectors; symbolic mismatched lengths",
     "Every *Point input position of every exported operation (slice elements up to n=3): all feasible paths panic; mismatched slice lengths (both symbolic) panic; the real guard panics on the zero value and never on a point with a non-zero X or Y limb. Harness table checked against the API surface from SSA.",
     "n <= 3 for slice positions.", "DESIGN.md 5/C15")
+add("C11", OTHER, "symbolic execution of every exported method under every aliasing partition (Int-LF for field/scalar kernels, chain/dlog/ring/group modes above) with effects log; same specification over the original argument values decided by z3",
+    "Element arithmetic for all partitions of {v,a,b}, Select/Swap/Absolute/Invert/Pow22523/SqrtRatio aliasings, all Scalar methods, Point Add/Subtract/Negate/Equal/MultByCofactor and the five scalar multiplications with the receiver aliased to an input and duplicate slice elements: results meet the distinct-storage specification; non-receiver arguments, slices and their elements are never written.",
+    "n <= 2 (quick) / 3 (thorough) for slices; value-level notion of 'same result'.", "DESIGN.md 5/C11")
+add("C19", OTHER, "symbolic execution of all 51 exported operations with an effects log (allocation sites, writes, retained references); solver used for path feasibility and the two-call equality",
+    "Every result of the constructors, ExtendedCoordinates and the Bytes methods targets storage allocated by the call, distinct per result and not retained by package state or arguments; no operation writes package-level state except the Once-guarded tables inside their initialiser, nor any non-receiver argument; a second ScalarBaseMult call gives the identical result.",
+    "Data callees abstracted (does not change which objects are written).", "DESIGN.md 5/C19")
+add("C18", OTHER, "effects/event extraction by symbolic execution of all exported operations + happens-before schedule query in z3 (Once.Do modelled by its contract); cold-start `go test -race` replay in the thorough tier / on alarm",
+    "Package-level state is written only inside a table's own Once.Do initialiser; tables are read only after Do returned; for 2 (quick) / 3 (thorough) goroutines and every multiset of table-using operations no schedule leaves a table write unordered with another goroutine's access.",
+    "Sequentially consistent events, sync.Once contract trusted, one call per goroutine, object granularity.", "DESIGN.md 5/C18")
